@@ -164,7 +164,7 @@ CONFIG["C12"] = dict(
     trusted_base=COMMON_TB + ["modelled, not verified: Go crypto/hkdf, crypto/sha256 (compared with Model.Sha2, itself KAT-checked), BLST/ecdh/btcec scalar multiplication"],
     technique="Lean 4 proof (mapToFr = OS2IP mod r for every length; key ranges; seed guards) + differential run vs own HKDF/curve arithmetic",
     level_text="Theorems for all seeds: map_bytes_to_Fr equals big-endian reduction mod r for every input length (induction over the digit loop); BLS key in [1,r-1], ECDSA key in [1,n-1]; "
-               "seed length guard; guards and constants tied to the code. That HKDF output equals RFC 5869 is by KAT + correspondence.",
+               "seed length guard; guards and constants tied to the code; generators_have_prime_order: the four generators the public keys are multiples of (G1, G2 of BLS12-381, the base points of P-256 and secp256k1) lie on their curves and are annihilated by the group order, which is prime (Pratt certificates), so sk -> sk*G is injective on the key range. That HKDF output equals RFC 5869 is by KAT + correspondence.",
     level_note="Lean kernel + correspondence; the BLS retry loop is modelled with fuel 16 (never exercised: probability 2^-255 per iteration)",
     assumptions=["the retry loop of BLS KeyGen terminates within 16 iterations"],
 )
